@@ -297,6 +297,7 @@ func (vc *VC) execInstr(fr *Frame, st *State, instr ssa.Instruction) {
 
 	case *ssa.MakeChan:
 		fr.env[x] = vc.alloc(st, "chan")
+		vc.fact(st.pc, fmt.Sprintf("(= (chancap %s) %s)", fr.env[x], vc.value(fr, st, x.Size)))
 
 	case *ssa.MakeClosure:
 		r := vc.alloc(st, "closure")
